@@ -98,7 +98,7 @@ def make_message(ev, n):
 
 class C06(Check):
     prop = "C06"
-    quick_runs = 128
+    quick_runs = 192
     thorough_runs = 3000
     run_wall = 600.0
     rule = ("one run = an event history (<= 12 events, up to 3 starts of the same node object) over the RFC 6733 alphabet "
